@@ -89,6 +89,9 @@ func c11Scenarios(tier string) []Scenario {
 		if len(s.Dgs) >= 4 {
 			s.Bound--
 		}
+		if s.Tries >= 3 && !thorough && s.Bound > 1 {
+			s.Bound = 1 // three tries: one preemption in the quick tier
+		}
 		s.Rules = "L"
 		s.Name = fmt.Sprintf("c11-%05d", len(out))
 		out = append(out, &clientScen{s: s, fam: fam + "-" + fam46(s.V6)})
